@@ -25,4 +25,5 @@ def main(tier):
     chk.run("R-TOKTIE", K.toktie, r, floor=3)
     chk.run("R-TOKPOS", K.tokpos, r, floor=4)
     chk.run("R-INDENT", K.indent, r, floor=10)
+    chk.run("R-LINESPLIT", K.linesplit, r, floor=2)
     return chk.finish()
